@@ -103,6 +103,26 @@ def rule_no_shared_class_attrs(em, rep, rid):
     rep.minimum('class attributes examined', n, 4)
 
 
+def _field_aliases(f):
+    """{local: field} for locals of a method that are assigned, only ever, from ``self.<field>``"""
+    out, bad = {}, set()
+    for x in own_nodes(f.node):
+        if isinstance(x, ast.Assign):
+            for t in x.targets:
+                if isinstance(t, ast.Name):
+                    if is_self_attr(x.value) and t.id not in out:
+                        out[t.id] = x.value.attr
+                    elif not (is_self_attr(x.value) and out.get(t.id) == x.value.attr):
+                        bad.add(t.id)
+                elif isinstance(t, (ast.Tuple, ast.List)):
+                    bad |= {y.id for y in ast.walk(t) if isinstance(y, ast.Name)}
+        elif isinstance(x, (ast.For, ast.comprehension)):
+            bad |= {y.id for y in ast.walk(x.target) if isinstance(y, ast.Name)}
+        elif isinstance(x, (ast.AugAssign, ast.NamedExpr)) and isinstance(x.target, ast.Name):
+            bad.add(x.target.id)
+    return {k: v for k, v in out.items() if k not in bad and k not in f.all_params}
+
+
 def init_field_values(em, cls):
     """{field: [(func, assign node)]} for self.field = ... in __init__ and the self methods it calls"""
     init = em.repo.lookup_method(cls, '__init__')
@@ -139,11 +159,17 @@ def rule_fresh_per_instance(em, rep, rid):
     for f in em.repo.all_functions(('engine',)):
         if f.cls is not yp:
             continue
+        al = _field_aliases(f)
         for x in own_nodes_ordered(f.node):
             if isinstance(x, ast.Subscript) and isinstance(x.ctx, (ast.Store, ast.Del)) and is_self_attr(x.value):
                 mutated.setdefault(x.value.attr, x)
             if isinstance(x, ast.Call) and isinstance(x.func, ast.Attribute) and is_self_attr(x.func.value) and x.func.attr in _MUTATORS:
                 mutated.setdefault(x.func.value.attr, x)
+            # ... through a local that stands for the field
+            if isinstance(x, ast.Subscript) and isinstance(x.ctx, (ast.Store, ast.Del)) and is_name(x.value) and x.value.id in al:
+                mutated.setdefault(al[x.value.id], x)
+            if isinstance(x, ast.Call) and isinstance(x.func, ast.Attribute) and is_name(x.func.value) and x.func.value.id in al and x.func.attr in _MUTATORS:
+                mutated.setdefault(al[x.func.value.id], x)
     rep.minimum('mutated engine fields', len(mutated), 3)
     defaults = {}
     if init is not None:
@@ -306,6 +332,7 @@ def write_effects(em):
     interning = atom_interning(em)
     for f in em.repo.all_functions(('engine',)):
         eff = set()
+        aliases = _field_aliases(f) if f.cls is not None else {}
         for x in own_nodes_ordered(f.node):
             if isinstance(x, ast.Attribute) and isinstance(x.ctx, (ast.Store, ast.Del)):
                 cn = f.cls.name if (f.cls is not None and is_name(x.value, 'self')) else '?'
@@ -318,6 +345,9 @@ def write_effects(em):
                     kind = 'intern'
             elif isinstance(x, ast.Subscript) and isinstance(x.ctx, (ast.Store, ast.Del)):
                 tgt = x.value
+            if isinstance(tgt, ast.Name) and f.cls is not None and tgt.id in aliases:
+                # a local that stands for self.<field>
+                tgt = ast.copy_location(ast.Attribute(value=ast.Name(id='self', ctx=ast.Load()), attr=aliases[tgt.id], ctx=ast.Load()), tgt)
             if isinstance(tgt, ast.Attribute) and is_name(tgt.value, 'self') and f.cls is not None:
                 if interning['ok'] and f is interning['func'] and tgt.attr == interning['field']:
                     kind = 'intern'     # shown by evaluation: files a new atom on a miss, never replaces one
